@@ -218,6 +218,9 @@ def add_strfuns(reg):
         cs = const_str(s)
         if cs is not None:      # a literal: its lower-case form is known
             ax.append(low.decl(s) == z3.StringVal(cs.encode('latin-1').lower().decode('latin-1')))
+        else:                   # equal to a literal of the function under verification: likewise
+            for lit in getattr(reg, 'literals', ()):     # ground facts; congruence does the rest
+                ax.append(low.decl(z3.StringVal(lit.decode('latin-1'))) == z3.StringVal(lit.lower().decode('latin-1')))
         return ax
     low.unfold = low_unfold
     reg.specfuns['lower'] = low
@@ -258,7 +261,8 @@ def add_ipaddress(reg):
 def add_http_ser(reg):
     """Spec functions of the RFC 7230 message serialisation (independent of the code):
     hdrs(K, m, n)   = the first n header fields  'K[j]: m[K[j]] CRLF'  in order (right recursion)
-    anylow(K, n, x) = some j < n has lower(K[j]) == x"""
+    anylow(K, n, x) = some j < n has lower(K[j]) == x
+    lastlow(K, n, x, d) = the last such K[j], or d"""
     S = z3.StringSort()
     SS = z3.SeqSort(S)
     A = z3.ArraySort(S, S)
@@ -298,6 +302,23 @@ def add_http_ser(reg):
                 ax.append(al(K, k, x) == z3.If(k <= 0, z3.BoolVal(False), z3.Or(al(K, k - 1, x), low.decl(K[k - 1]) == x)))
             return ax
     reg.specfuns['anylow'] = AnyLow()
+    ll = z3.Function('lastlow', SS, z3.IntSort(), S, S, S)
+
+    class LastLow(object):
+        """lastlow(K, n, x, d) = the last K[j], j < n, with lower(K[j]) == x; d when there is none"""
+        name, restype, define, pyimpl = 'lastlow', 'bytes', None, None
+        decl = ll
+
+        def apply(self, K, n, x, d):
+            return ll(K, n, x, d)
+
+        def unfold(self, K, n, x, d):
+            ax = []
+            for e in range(2):
+                k = n - e
+                ax.append(ll(K, k, x, d) == z3.If(k <= 0, d, z3.If(low.decl(K[k - 1]) == x, K[k - 1], ll(K, k - 1, x, d))))
+            return ax
+    reg.specfuns['lastlow'] = LastLow()
     jn = SpecFun('join', ['bytes', ('list', 'bytes')], 'bytes')
 
     def units(t):
